@@ -830,7 +830,10 @@ pub fn stack_pattern() -> Option<u8> {
         Fill::Zero => Some(0),
         Fill::PatternAA => Some(0xAA),
         Fill::Random => Some(0x5B | (st().cfg.alloc_seed as u8 & 0xA4)),
-        Fill::Stale => None,
+        // "stale" for the stack still has to be a known byte: leftovers of
+        // earlier runs in the same process would make digests depend on which
+        // worker ran which index
+        Fill::Stale => Some(0xCD),
     }
 }
 
